@@ -1045,9 +1045,31 @@ def run_C07(ctx):
     for tid, clause in rej:
         ctx.rejects.append({"tid": tid, "clause": clause, "records": p, "s": "sizing", "pspec": "P_Sizing", "pconsts": {}, "hist": None, "scenarios": None, "kind": "sizing"})
     sample_records(ctx, p, 2)
+    extra_constructors(ctx)
     # the quotient-filter clause of C07 (false positives only from fingerprint collisions) is the exact-set invariant of C13
     qf_e1(ctx, [(2, 1), (2, 2)])
     qf_e2(ctx, [(2, 2)], pairs=0)
+
+
+def extra_constructors(ctx):
+    """Extra coverage (not a listed property): documented argument contracts of every constructor.  Mismatches are
+    reported as notes (clause prefix X.), never as a verdict of the property being checked."""
+    w = ctx.sub("ctor")
+    c = {"EMIT": "FALSE"}
+    ctx.e1.append(vlib.model_check("Gen_Constructors", c, ["Inv"], ctx.sub("e1"), workers=1))
+    c["EMIT"] = "TRUE"
+    gen, st = vlib.generate("Gen_Constructors", c, w, "cases.out")
+    p = os.path.join(w, "p.ndjson")
+    stats = vlib.vh(["ctor", "all", "--gen", gen, "--out", p], w)
+    n, rej = vlib.adjudicate("P_Constructors", p, w, parallel=1)
+    ctx.judged += n
+    ctx.executed += stats["cases"]
+    ctx.e2_transitions += stats["cases"]
+    ctx.extra["constructor_contracts"] = {"cases": stats["cases"], "mismatches": sorted(set(cl for _, cl in rej))}
+    for tid, clause in rej[:10]:
+        log("EXTRA (constructor contract, not a verdict): case %d: %s" % (tid, clause))
+    if rej:
+        ctx.notes.append("constructor contract mismatches (extra coverage): %d" % len(rej))
 
 
 def sizing_replay(ctx, rp):
